@@ -127,6 +127,7 @@ class World:
         self.randbits_value = 77
         self.spawned = []
         self.thread_start_fails = False
+        self.eager_reader = False    # a connection's reader thread runs as soon as the I/O thread has queued bytes for it
         self.defer_pump = 0          # the connection workers lag behind the I/O thread for this many loop iterations
 
     # ---------------------------------------------------------------- shims
@@ -159,6 +160,14 @@ class World:
             SOL_SOCKET=1, SO_REUSEADDR=2, SO_LINGER=13, SO_ERROR=4)
         node_mod.select = types.SimpleNamespace(select=self.select)
         helpers.StoppableThread.start = lambda self_: w.started.append(self_)
+        if not hasattr(peer_mod.PeerConnection, "_orig_add_in_bytes"):
+            peer_mod.PeerConnection._orig_add_in_bytes = peer_mod.PeerConnection.add_in_bytes
+
+            def add_in_bytes(self_, data):
+                peer_mod.PeerConnection._orig_add_in_bytes(self_, data)
+                if w.eager_reader:
+                    w.pump_conn(self_)            # a legal schedule: the reader thread is faster than the I/O thread
+            peer_mod.PeerConnection.add_in_bytes = add_in_bytes
 
         class VThread:
             """threading.Thread double for application.py: start() registers, the harness runs the target when it chooses"""
